@@ -463,7 +463,7 @@ func (x *Exec) addMany(kind, index string, items []types.BatchObject) error {
 			v = make([]float32, dim)
 		}
 		pend := map[string][2]float64{}
-		m := x.memInject(mi, copyMeta(it.Metadata), pend, lo, hi, false)
+		m := x.memInject(mi, copyMeta(it.Metadata), pend, lo, hi, true) // batch and import apply the layer defaults like VAdd (D-C15-4)
 		mi.Recs[it.Id] = &Rec{Vec: v, Meta: NormMeta(m), Pend: pend}
 		mi.Dim = len(v)
 		if len(it.Metadata) > 0 {
